@@ -66,7 +66,7 @@ def main(tier):
         for rec in results:
             origin, t, smart, w, frac, rw, res = rec
             key = (json.dumps(t), smart, w, frac)
-            if not (key in dis_keys or origin in ('corpus', 'random') or r.random() < (0.08 if tier == 'quick' else 0.2)):
+            if not (key in dis_keys or origin in ('corpus', 'random', 'align-nest', 'shared') or r.random() < (0.08 if tier == 'quick' else 0.2)):
                 continue
             verdict, detail = oracle(t, smart, w, frac, res)
             checked += 1
@@ -77,11 +77,15 @@ def main(tier):
                 continue
             viol += 1
             if viol <= 3:
-                small = docgen.shrink(t, lambda c: oracle(c, smart, w, frac, engine.impl_layout(
-                    docgen.to_real(c), smart, w, frac))[0] == 'violation')
+                hist = EC.history(t, smart, w, frac)
+                sh = origin == 'shared'
+                small = docgen.shrink(t, lambda c: oracle(c, smart, w, frac, EC.impl_with_history(
+                    c, hist, smart, w, frac, sh))[0] == 'violation')
+                if oracle(small, smart, w, frac, EC.impl_with_history(small, [], smart, w, frac, sh))[0] == 'violation':
+                    hist = []
                 run.violation({'kind': 'oracle', 'term': small, 'original_term': t, 'smart': smart, 'width': w,
-                               'ribbon_frac': frac, 'impl': engine.impl_layout(docgen.to_real(small), smart, w, frac),
-                               'detail': detail})
+                               'ribbon_frac': frac, 'shared': sh, 'history': hist,
+                               'impl': EC.impl_with_history(small, hist, smart, w, frac, sh), 'detail': detail})
         run.coverage['oracle_checked'] = checked
         for d in dis[:3]:
             run.sample({'disagreement': d})
@@ -101,7 +105,8 @@ def replay(path):
         print(json.dumps(p, indent=1)[:3000])
         return 1
     t = EC.detuple(p['term'])
-    res = engine.impl_layout(docgen.to_real(t), p['smart'], p['width'], p['ribbon_frac'])
+    res = EC.impl_with_history(t, [tuple(h) for h in p.get('history', [])], p['smart'], p['width'], p['ribbon_frac'],
+                               p.get('shared'))
     verdict, detail = oracle(t, p['smart'], p['width'], p['ribbon_frac'], res)
     print('term:', t, '\nimpl:', res, '\nverdict:', verdict, detail)
     return 0 if verdict == 'ok' else 1
